@@ -5,6 +5,7 @@
 package rl
 
 import (
+	"os"
 	"runtime"
 	"strings"
 	"sync"
@@ -37,6 +38,8 @@ type Rec struct {
 
 	parkMu sync.Mutex
 	parks  []*Park
+
+	stream *os.File // optional: every event is also written here at once (survives a crash of the process)
 }
 
 func NewRec(seed uint64, yieldPermille int) *Rec {
@@ -50,6 +53,9 @@ func (r *Rec) Log(kind string, f ...string) int {
 	r.mu.Lock()
 	r.evs = append(r.evs, Event{kind, f})
 	n := len(r.evs)
+	if r.stream != nil {
+		r.stream.WriteString(Event{kind, f}.String() + "\n")
+	}
 	r.cond.Broadcast()
 	r.mu.Unlock()
 	return n
